@@ -268,7 +268,9 @@ def derive_run(tier, seed):
         n_rustc += 1
         if o["panicked"]:
             findings.append({"key": "rustc:panic:" + key, "what": "proc-macro derive panicked under rustc: %s" % (o["errors"][:2],), "source": it["src"], "input": inp})
-        elif r["verdict"] == "accept" and o["errors"]:
+        elif r["verdict"] == "accept" and o["errors"] and not (inp["shape"] == "field1" and inp["enum"].startswith("gen_")):
+            # (in the generic forms the rendered field type u32 only fits attributes with a callback;
+            #  a type error in the user's own field is not the derive's)
             findings.append({"key": "rustc:accept-fails:" + key, "what": "accepted definition does not compile: %s" % (o["errors"][:2],), "source": it["src"], "input": inp})
         elif r["verdict"] == "reject" and not o["errors"]:
             findings.append({"key": "rustc:reject-compiles:" + key, "what": "definition the specification rejects compiles without diagnostics", "source": it["src"], "input": inp})
